@@ -29,6 +29,43 @@ func runC19(e *Engine, r *Report, tier string) {
 	r.Rule("R3", "inbound conversion guarded; keeper error -> error acknowledgement", 3, "")
 	r.Rule("R4", "intermediate sender = hash(source port/channel, data.Sender)", 2, "")
 
+	// R5: the relation key is an injective encoding of (channel, sequence)
+	r.Rule("R5", "relation key encodes (channel, sequence) injectively", 1, "key constructors of erc20:04")
+	nkc := 0
+	for _, fn := range e.Funcs {
+		if fn.Parent() != nil || !strings.HasSuffix(fnPkgPath(fn), "x/erc20/types") || fn.Signature.Recv() != nil {
+			continue
+		}
+		isKey := false
+		for _, b := range fn.Blocks {
+			if ret, ok := b.Instrs[len(b.Instrs)-1].(*ssa.Return); ok && len(ret.Results) == 1 {
+				for id := range e.KeyFamilies(ret.Results[0]) {
+					if famMatch(id, "erc20", "04") {
+						isKey = true
+					}
+				}
+			}
+		}
+		if !isKey {
+			continue
+		}
+		nkc++
+		cs, ok := e.keyComponents(fn)
+		k := e.FnKey(fn)
+		if !ok {
+			r.Undecided("R5", k, e.Pos(fn.Pos()), "key constructor shape not recognised (not append/Sprintf built): injectivity of (channel, sequence) -> key cannot be decided")
+			continue
+		}
+		if amb := keyAmbiguity(cs); amb != "" {
+			r.Fail("R5", k, e.Pos(fn.Pos()), "two different (channel, sequence) pairs can produce the same relation key: "+amb+" (e.g. channel-1/12 and channel-11/2): in-flight transfers would share one tracking record")
+		} else {
+			r.Ok("R5", k, e.Pos(fn.Pos()), fmt.Sprintf("%d components, variable-length parts separated", len(cs)))
+		}
+	}
+	if nkc == 0 {
+		r.Fail("R5", "key constructor", "", "UNRESOLVED-ANCHOR: no key constructor for erc20:04")
+	}
+
 	mwk := "x/ibc/middleware/keeper"
 	// setters of 0x04 exist (the family is in use)
 	if len(e.FuncsWithOp("erc20", "04", "set")) == 0 {
